@@ -178,6 +178,7 @@ func TestC16Sid(t *testing.T) {
 
 // TestC16SidAll enumerates all 2^24 (revision, authority) pairs (sharded).
 func TestC16SidAll(t *testing.T) {
+	lab.SkipIfReplayOther(t, "sidall")
 	st := lab.GetStats("C16", "sidall")
 	st.SetRule("exhaustive enumeration of all 2^24 (revision, authority) pairs, sharded by revision; every pair is non-trivial and distinct by construction")
 	defer st.Flush()
